@@ -254,7 +254,7 @@ pub fn run_recv(args: &[String]) -> i32 {
                     }
                 }
                 // keep the stream open a little, then close it
-                tokio::time::sleep(Duration::from_millis(80)).await;
+                tokio::time::sleep(Duration::from_millis(15)).await;
                 let _ = wr.shutdown().await;
             });
             let results: Arc<Mutex<Vec<Value>>> = Arc::new(Mutex::new(Vec::new()));
@@ -278,7 +278,7 @@ pub fn run_recv(args: &[String]) -> i32 {
                         Ok((ctl, msg)) => r2.lock().unwrap().push(json!({"k": "msg", "control": denote(&ctl.to_term()), "payload": msg.as_ref().map(denote)})),
                         Err(e) => {
                             let s = format!("{e:?}");
-                            let end = s.contains("UnexpectedEof") || s.contains("Timeout") || s.contains("Connection") || s.contains("Io(");
+                            let end = s.starts_with("Io(") || s.starts_with("Timeout") || s.starts_with("ConnectionClosed") || s.starts_with("UnexpectedEof") || s.starts_with("MessageTooLarge");
                             r2.lock().unwrap().push(json!({"k": if end { "end" } else { "err" }, "detail": s.chars().take(120).collect::<String>()}));
                             if end {
                                 break;
